@@ -8,12 +8,23 @@ import tempfile
 from collections import OrderedDict
 
 
-def mk(kind, root):
+def mk(kind, root, state=None):
     from dds.store import MemoryStore, LocalFileStore
     if kind == "memory":
         return MemoryStore()
     if kind == "local":
         return LocalFileStore(os.path.join(root, "internal"), os.path.join(root, "data"))
+    if kind.startswith("dbfs"):
+        from dds.codecs.databricks import DBFSStore, DBFSURI, CommitType
+        import fake_dbutils
+        if state is not None and "dbutils" in state:
+            dbu = state["dbutils"]
+        else:
+            dbu = fake_dbutils.FakeDbutils()
+            if state is not None:
+                state["dbutils"] = dbu
+        ct = {"dbfs": CommitType.FULL, "dbfs-full": CommitType.FULL, "dbfs-links": CommitType.LINK_ONLY, "dbfs-none": CommitType.NO_COMMIT}[kind]
+        return DBFSStore(DBFSURI.parse("dbfs:/store/internal"), DBFSURI.parse("dbfs:/store/data"), dbu, ct)
     raise ValueError(kind)
 
 
@@ -52,8 +63,9 @@ def main():
     res = []
     for s in payload["seqs"]:
         root = tempfile.mkdtemp(prefix="drvstore_")
+        state = {}
         try:
-            store = mk(s["store"], root)
+            store = mk(s["store"], root, state)
             cap = s["cap"]
             wrapped = None
             if cap != "bare":
@@ -61,10 +73,35 @@ def main():
                 wrapped = LRUCacheStore(store, num_elem=n)
             outs, lens = [], []
             for op in s["ops"]:
+                if op[0] == "reopen":
+                    # a new store object on the same directories / the same remote file system
+                    store = mk(s["store"], root, state)
+                    if wrapped is not None:
+                        wrapped = LRUCacheStore(store, num_elem=wrapped._num_elem)
+                    outs.append("U")
+                    continue
                 outs.append(do(wrapped or store, op))
                 if wrapped is not None:
                     lens.append(len(wrapped._cache._cache))
-            res.append({"outs": outs, "lens": lens})
+            entry = {"outs": outs, "lens": lens}
+            if s.get("listing"):
+                # every file / link created under the data directory, with its resolved location
+                if s["store"] == "local":
+                    data = os.path.realpath(os.path.join(root, "data"))
+                    top = os.path.realpath(root)
+                    created = []
+                    for d, dirs, files in os.walk(top):
+                        for f in files + [x for x in dirs if os.path.islink(os.path.join(d, x))]:
+                            fp = os.path.join(d, f)
+                            if os.path.realpath(d).startswith(os.path.join(top, "internal")):
+                                continue
+                            created.append([os.path.relpath(fp, data), os.path.islink(fp),
+                                            os.path.basename(os.path.realpath(fp)) if os.path.islink(fp) else None])
+                    entry["listing"] = sorted(created)
+                    entry["outside"] = sorted(x[0] for x in created if x[0] == ".." or x[0].startswith("../"))
+                elif s["store"].startswith("dbfs"):
+                    entry["listing"] = sorted(k for k in state["dbutils"].fs.files if not k.startswith("dbfs:/store/internal"))
+            res.append(entry)
         finally:
             shutil.rmtree(root, ignore_errors=True)
     dec = []
@@ -86,4 +123,5 @@ def main():
 
 
 if __name__ == "__main__":
+    sys.path.insert(0, os.path.dirname(os.path.abspath(__file__)))
     main()
